@@ -434,9 +434,34 @@ func c01RootRelocation(c *Ctx, rule string) {
 				if !ok || (be.Op != token.NEQ && be.Op != token.EQL) {
 					return false
 				}
-				l, lok := ast.Unparen(be.X).(*ast.CallExpr)
-				r, rok := ast.Unparen(be.Y).(*ast.CallExpr)
-				if !(lok && rok && f.CallIs(l, "storage.btreeNode.getFileOffset") && f.CallIs(r, "storage.btreeNode.getFileOffset")) {
+				// an operand is a page's offset: the getter call itself, or a local that holds its result
+				isOffset := func(e ast.Expr) bool {
+					e = ast.Unparen(e)
+					if call, ok := e.(*ast.CallExpr); ok {
+						return f.CallIs(call, "storage.btreeNode.getFileOffset")
+					}
+					if id, ok := e.(*ast.Ident); ok {
+						defs := f.assignsTo(body.Node, f.ObjOf(id))
+						if len(defs) == 0 {
+							return false
+						}
+						for _, as := range defs {
+							if len(as.Rhs) != 1 || len(as.Lhs) != 1 {
+								return false
+							}
+							call, ok := ast.Unparen(as.Rhs[0]).(*ast.CallExpr)
+							if !ok || !f.CallIs(call, "storage.btreeNode.getFileOffset") {
+								return false
+							}
+						}
+						return true
+					}
+					if sel, ok := e.(*ast.SelectorExpr); ok && sel.Sel.Name == "fileOffset" {
+						return true
+					}
+					return false
+				}
+				if !isOffset(be.X) || !isOffset(be.Y) {
 					return false
 				}
 				return (be.Op == token.EQL) == val
